@@ -57,7 +57,7 @@ func referenceDouglasPeuckerSimplify(points []r2.Point, epsilon float64) []r2.Po
 		}
 	}
 
-	if max > epsilon {
+	if maxi > 0 && max > epsilon {
 		left := referenceDouglasPeuckerSimplify(points[0:maxi], epsilon)
 		right := referenceDouglasPeuckerSimplify(points[maxi:], epsilon)
 		return append(append(make([]r2.Point, 0, len(left)+len(right)), left[0:len(left)-1]...), right...)
@@ -91,7 +91,7 @@ func douglasPeuckerSimplify(points []r2.Point, epsilon float64) []r2.Point {
 			}
 		}
 
-		if max > epsilon {
+		if maxi > 0 && max > epsilon {
 			stack = append(stack, interval{begin: maxi, end: top.end}, interval{begin: top.begin, end: maxi})
 		} else {
 			simplified = append(simplified, points[top.begin])
